@@ -98,3 +98,17 @@ def rkey(rng, avoid=()):
             continue
         return k
     return "KEY"
+
+
+def long_notes(rng):
+    """Note data of 66-131 thousand characters with a few line separators other than LF (CRLF, lone CR, FF, U+2028);
+    no leading or trailing blanks."""
+    size = rng.choice([66000, 70000, 131100])
+    body = ("0000\n0001\n0010\n0100\n" * (size // 20 + 1))[:size].rstrip()
+    chars = list(body)
+    for _ in range(rng.randint(1, 4)):
+        i = rng.randrange(5, len(chars) - 5)
+        j = "".join(chars).find("\n", i)
+        if j > 0:
+            chars[j] = rng.choice(["\r\n", "\r\n", "\r", "\x0c\n", "\u2028", "\n\n"])
+    return "".join(chars)
